@@ -31,6 +31,10 @@ pub enum Op {
     MpAdd,
     MpSetTarget,
     SetTarget,
+    /// three ticks in a row
+    Tick3,
+    MpInsertAfterA,
+    MpInsertBeforeA,
 }
 
 pub struct C18 {
@@ -113,6 +117,21 @@ impl C18 {
                         nb.tick();
                         w.extra.push(nb);
                     }
+                    Op::Tick3 => {
+                        if let Some(a) = a {
+                            a.tick();
+                            a.tick();
+                            a.tick();
+                        }
+                    }
+                    Op::MpInsertAfterA | Op::MpInsertBeforeA => {
+                        if let Some(a) = w.a.as_ref() {
+                            let nb = ProgressBar::with_draw_target(Some(5), ProgressDrawTarget::hidden()).with_style(style(2)).with_prefix("d");
+                            let nb = if *op == Op::MpInsertAfterA { w.mp.as_ref().unwrap().insert_after(a, nb) } else { w.mp.as_ref().unwrap().insert_before(a, nb) };
+                            nb.tick();
+                            w.extra.push(nb);
+                        }
+                    }
                     Op::MpSetTarget => w.mp.as_ref().unwrap().set_draw_target(ProgressDrawTarget::term_like(w.spy.boxed())),
                     Op::SetTarget => a.map(|a| a.set_draw_target(ProgressDrawTarget::term_like(w.spy.boxed()))).unwrap_or(()),
                 }
@@ -176,8 +195,13 @@ impl Hist for C18 {
         if !prefix.contains(&Op::DropA) {
             v.push(Op::DropA);
         }
+        v.push(Op::Tick3);
         if self.multi {
             v.extend([Op::TickB, Op::MpPrintln, Op::MpClear, Op::MpSuspend, Op::MpRemoveA, Op::MpAdd, Op::MpSetTarget]);
+            // inserting relative to a bar that is no longer a member is a caller error
+            if !prefix.contains(&Op::MpRemoveA) && !prefix.contains(&Op::DropA) {
+                v.extend([Op::MpInsertAfterA, Op::MpInsertBeforeA]);
+            }
         } else {
             v.push(Op::SetTarget);
         }
